@@ -298,8 +298,14 @@ def run_writer(path, conf, recs):
     return ("file", data.decode("latin-1"))
 
 
+def opened(obs):
+    """did GroFile(path) itself succeed (the file was accepted on opening), whatever readlines() did later?"""
+    return obs[0] == "ok" or (obs[0] == "err" and len(obs) > 2 and obs[2] == "read")
+
+
 def run_reader(path):
-    """('ok', comment, natoms, atoms, box) or ('err', code)"""
+    """('ok', comment, natoms, atoms, box) or ('err', code, phase) with phase 'open' (GroFile(path) raised) or
+    'read' (the file was accepted on opening, readlines() raised)"""
     g = None
     try:
         g = GroFile()(path)
@@ -316,7 +322,7 @@ def run_reader(path):
                 g._file.close()
         except Exception:  # noqa: BLE001
             pass
-        return ("err", exc_code(e))
+        return ("err", exc_code(e), "open" if g is None else "read")
 
 
 _rp = [None]
@@ -598,6 +604,46 @@ def gen_case(rs, natoms=None, allow_wide=False, fmt_d=None, vel=None, declared=N
 def to_crlf(text):
     """the same file with CRLF line ends (text = bytes as latin-1 characters, no CR in it)"""
     return text.replace("\n", "\r\n")
+
+
+def run_failclose(path, conf, recs, use_with):
+    """The fault sequence "close fails": conf announces a count different from len(recs); the records are written,
+    close() is reached (explicitly or by leaving a with block) and raises; the program drops the writer.
+    Returns (exception code of close or None, bytes left on disk, the reader's observation on them)."""
+    import gc as _gc
+    raised = [None]
+
+    def run():
+        if use_with:
+            with GroFile()(path, "w") as out:
+                apply_conf(out, conf)
+                write_records(out, conf, recs)
+        else:
+            out = GroFile()(path, "w")
+            apply_conf(out, conf)
+            write_records(out, conf, recs)
+            out.close()
+    try:
+        run()
+    except Exception as e:  # noqa: BLE001
+        raised[0] = exc_code(e)
+    _gc.collect()                           # whatever was buffered reaches the disk
+    with open(path, "rb") as f:
+        text = f.read().decode("latin-1")
+    return raised[0], text, run_reader(path)
+
+
+def numeric_line(text, index):
+    """is the index-th atom line of the file made of numeric tokens only (it then parses as a box line)?"""
+    lines = text.split("\n")
+    if 2 + index >= len(lines):
+        return False
+    toks = lines[2 + index].split()
+    try:
+        [float(t) for t in toks]
+        return True
+    except ValueError:
+        return False
 
 
 def run_abandoned(path, conf, recs, k, box_late):
